@@ -153,3 +153,351 @@ Proof.
     rewrite wsub32_small by (lits; lia). reflexivity.
   - rewrite (main_mt_out_of_bounds n i Hge). reflexivity.
 Qed.
+
+(* ---------------------------------------------------------------- right_lineage_length_and_own_height *)
+Lemma rll_height_loop_eq fuel ni c ch rac :
+  rll_height_loop fuel ni c ch rac =
+  match fuel with
+  | O => None
+  | S f =>
+      if c =? ni then Some (rac, ch) else
+      if left_child_ok c ch then
+        let lc := left_child c ch in
+        if lc <? ni then
+          if right_child_ok c && add_ok 32 rac 1 && sub_ok ch 1
+          then rll_height_loop f ni (right_child c) (wsub 32 ch 1) (wadd 32 rac 1) else None
+        else
+          if sub_ok ch 1 then rll_height_loop f ni lc (wsub 32 ch 1) 0 else None
+      else None
+  end.
+Proof. destruct fuel; reflexivity. Qed.
+
+Lemma rll_loop_tie : forall (f : nat) c rac ni (F : nat), 0 <= c < 2 ^ 64 -> 0 <= rac -> rac + Z.of_nat f < 2 ^ 32 - 1 ->
+  (f <= 63)%nat -> (f < F)%nat ->
+  rll_loop f c (Z.of_nat f) ni rac = rll_height_loop F ni c (Z.of_nat f) rac.
+Proof.
+  induction f as [|f IH]; intros c rac ni F Hc Hrac Hb Hf HF; destruct F as [|F]; try lia;
+    rewrite rll_loop_eq, rll_height_loop_eq.
+  - destruct (c =? ni); [reflexivity|].
+    unfold left_child_ok, sub_ok, shift_ok. change (Z.of_nat 0) with 0. cbn [Z.leb Z.ltb Z.compare andb].
+    destruct (wshl 64 1 0 <=? c); [|reflexivity]. cbv zeta.
+    change (1 <=? 0) with false. rewrite !andb_false_r. destruct (left_child c 0 <? ni); reflexivity.
+  - destruct (c =? ni); [reflexivity|].
+    pose proof (p2_nat_pos (S f)) as Hp.
+    unfold sub64. destruct (Z.leb_spec (2 ^ Z.of_nat (S f)) c) as [Hle|Hgt].
+    + destruct (left_child_val c (Z.of_nat (S f)) ltac:(lia) ltac:(lia)) as [-> ->]. cbn [obind]. cbv zeta.
+      replace (Z.of_nat (S f) - 1) with (Z.of_nat f) by lia.
+      assert (E1 : wsub 32 (Z.of_nat (S f)) 1 = Z.of_nat f) by (rewrite wsub32_small by (lits; lia); lia).
+      rewrite E1.
+      destruct (c - 2 ^ Z.of_nat (S f) <? ni).
+      * destruct (right_child_val c ltac:(lia)) as [-> ->].
+        replace (add_ok 32 rac 1) with true by (unfold add_ok; lits; lia).
+        replace (sub_ok (Z.of_nat (S f)) 1) with true by (unfold sub_ok; symmetry; apply Z.leb_le; lia). cbn [andb].
+        rewrite wadd32_small by (lits; lia). apply IH; lia.
+      * replace (sub_ok (Z.of_nat (S f)) 1) with true by (unfold sub_ok; symmetry; apply Z.leb_le; lia). apply IH; lia.
+    + cbn [obind]. replace (left_child_ok c (Z.of_nat (S f))) with false; [reflexivity|].
+      unfold left_child_ok. rewrite wshl64_1, shift_ok_64 by lia. unfold sub_ok. cbn [andb]. symmetry. apply Z.leb_gt. lia.
+Qed.
+
+Lemma rll_loop_bounds : forall (f : nat) c rac ni r h, rll_loop f c (Z.of_nat f) ni rac = Some (r, h) -> 0 <= rac ->
+  0 <= r /\ 0 <= h <= Z.of_nat f.
+Proof.
+  induction f as [|f IH]; intros c rac ni r h; rewrite rll_loop_eq; intros Hr Hrac.
+  - destruct (c =? ni); [|discriminate Hr]. inversion Hr; subst. lia.
+  - destruct (c =? ni); [inversion Hr; subst; lia|].
+    destruct (sub64 c (2 ^ Z.of_nat (S f))) as [lc|]; [|discriminate Hr]. cbn [obind] in Hr.
+    replace (Z.of_nat (S f) - 1) with (Z.of_nat f) in Hr by lia.
+    destruct (lc <? ni); apply IH in Hr; lia.
+Qed.
+
+Lemma la_gen_bounds x c h : 0 <= x < 2 ^ 64 -> mm_leftmost_ancestor x = Some (c, h) -> 0 <= c < 2 ^ 64 /\ 0 <= h <= 63.
+Proof.
+  intros Hx E. destruct (Z.eq_dec x 0) as [->|Hne]; [discriminate E|].
+  unfold mm_leftmost_ancestor, mm_chk in E.
+  destruct (leftmost_ancestor_val x ltac:(lia)) as [Hok (Hh & Hle & Ev & _)]. rewrite Hok, Ev in E. inversion E; subst.
+  pose proof (tsize_lt64 Hh Hle). pose proof (tsize_pos Hh). lia.
+Qed.
+
+Theorem tie_rll_and_height x : 0 <= x < 2 ^ 64 -> rll_and_height x = mm_right_lineage_length_and_own_height x.
+Proof.
+  intros Hx. unfold rll_and_height, mm_right_lineage_length_and_own_height.
+  rewrite (tie_leftmost_ancestor x Hx).
+  pose proof (la_gen_bounds x) as Hb. unfold mm_leftmost_ancestor, mm_chk in *.
+  destruct (leftmost_ancestor_ok x); [|reflexivity]. cbn [obind].
+  destruct (MmrIndexGen.leftmost_ancestor x) as [c h]. destruct (Hb c h Hx eq_refl) as [Hc Hh].
+  replace h with (Z.of_nat (Z.to_nat h)) at 2 3 by lia. apply rll_loop_tie; lits; lia.
+Qed.
+
+Lemma rll_and_height_bounds x r h : 0 <= x < 2 ^ 64 -> rll_and_height x = Some (r, h) -> 0 <= r /\ 0 <= h <= 63.
+Proof.
+  intros Hx E. unfold rll_and_height in E. rewrite (tie_leftmost_ancestor x Hx) in E.
+  destruct (mm_leftmost_ancestor x) as [[c h0]|] eqn:El; [|discriminate E]. cbn [obind] in E.
+  destruct (la_gen_bounds x c h0 Hx El) as [Hc Hh].
+  replace h0 with (Z.of_nat (Z.to_nat h0)) in E at 2 by lia. apply rll_loop_bounds in E; lia.
+Qed.
+
+(* ---------------------------------------------------------------- parent *)
+Theorem tie_parent x : 0 <= x < 2 ^ 64 -> parent x = mm_parent x.
+Proof.
+  intros Hx. unfold parent, step_up, mm_parent. rewrite <- (tie_rll_and_height x Hx).
+  pose proof (rll_and_height_bounds x) as Hb.
+  destruct (rll_and_height x) as [[rac h]|]; [|reflexivity]. destruct (Hb rac h Hx eq_refl) as [Hr Hh]. cbn [obind].
+  destruct (negb (rac =? 0)).
+  - unfold add64, mm_chk, add_ok, two64. lits. destruct (Z.ltb_spec (x + 1) 18446744073709551616); cbn [obind]; [|reflexivity].
+    rewrite wadd64_small by (lits; lia). reflexivity.
+  - unfold shl1, add64, mm_chk, two64. replace (add_ok 32 h 1) with true by (unfold add_ok; lits; lia).
+    rewrite wadd32_small by (lits; lia). unfold shift_ok.
+    destruct (Z.leb_spec 0 (h + 1)); [|lia]. destruct (Z.ltb_spec (h + 1) 64); cbn [andb obind]; [|reflexivity].
+    rewrite wshl64_1 by lia. unfold add_ok. lits.
+    pose proof (pow2_pos (h + 1) ltac:(lia)).
+    destruct (Z.ltb_spec (x + 2 ^ (h + 1)) 18446744073709551616); cbn [obind]; [|reflexivity].
+    rewrite wadd64_small by (lits; lia). reflexivity.
+Qed.
+
+(* ---------------------------------------------------------------- right_lineage_length_from_node_index *)
+Lemma rll_node_rec_eq fuel ni :
+  rll_node_rec fuel ni =
+  match fuel with
+  | O => None
+  | S f =>
+      if sub_ok 64 (leading_zeros 64 ni) then
+      let bit_width := wsub 32 64 (leading_zeros 64 ni) in
+      if shift_ok 128 bit_width then
+      let npo2 := wshl 128 1 bit_width in
+      if sub_ok npo2 ni then
+      let dist := ucast 64 (wsub 128 npo2 ni) in
+      if bit_width <? dist then
+        if sub_ok bit_width 1 then
+        if shift_ok 64 (wsub 32 bit_width 1) then
+        let p := wshl 64 1 (wsub 32 bit_width 1) in
+        if sub_ok ni p then
+        if add_ok 64 (wsub 64 ni p) 1 then
+        rll_node_rec f (wadd 64 (wsub 64 ni p) 1) else None else None else None else None
+      else
+        if sub_ok dist 1 then Some (ucast 32 (wsub 64 dist 1)) else None
+      else None else None else None
+  end.
+Proof. destruct fuel; reflexivity. Qed.
+
+Lemma rll_node_tie : forall fuel ni, 0 <= ni < 2 ^ 64 ->
+  rll_node_fuel fuel ni = rll_node_rec fuel ni /\
+  (forall r, rll_node_fuel fuel ni = Some r -> 0 <= r <= 63).
+Proof.
+  induction fuel as [|f IH]; intros ni Hni; [split; [reflexivity|discriminate]|].
+  destruct (Z.eq_dec ni 0) as [->|Hne]; [split; [reflexivity|discriminate]|].
+  rewrite rll_node_fuel_eq, rll_node_rec_eq. cbv zeta.
+  destruct (Z.leb_spec ni 0); [lia|].
+  pose proof (Z.log2_spec ni ltac:(lia)) as [Hl1 Hl2]. pose proof (Z.log2_nonneg ni) as Hl0.
+  assert (Hl63 : Z.log2 ni < 64) by (apply Z.log2_lt_pow2; lia).
+  set (L := Z.log2 ni) in *. replace (Z.succ L) with (L + 1) in Hl2 by lia.
+  assert (Elz : leading_zeros 64 ni = 64 - (L + 1)).
+  { unfold leading_zeros, bitlen. destruct (Z.eqb_spec ni 0); [lia|reflexivity]. }
+  rewrite Elz. replace (sub_ok 64 (64 - (L + 1))) with true by (unfold sub_ok; lia).
+  assert (Ebw : wsub 32 64 (64 - (L + 1)) = L + 1) by (rewrite wsub32_small by (lits; lia); lia).
+  rewrite Ebw. replace (shift_ok 128 (L + 1)) with true by (unfold shift_ok; lia).
+  pose proof (pow2_pos (L + 1) ltac:(lia)) as Hp1. pose proof (pow2_pos L ltac:(lia)) as Hp0.
+  assert (Hple : 2 ^ (L + 1) <= 2 ^ 64) by (apply pow2_le; lia).
+  assert (E2 : 2 ^ (L + 1) = 2 * 2 ^ L) by (apply pow2_succ; lia).
+  assert (Enp : wshl 128 1 (L + 1) = 2 ^ (L + 1)).
+  { unfold wshl. rewrite Z.mul_1_l. apply wrap_small. lits. lia. }
+  rewrite Enp. replace (sub_ok (2 ^ (L + 1)) ni) with true by (unfold sub_ok; lia).
+  assert (Edist : ucast 64 (wsub 128 (2 ^ (L + 1)) ni) = 2 ^ (L + 1) - ni).
+  { unfold ucast, wsub. rewrite (wrap_small 128) by (lits; lia). apply wrap_small. lits. lia. }
+  rewrite Edist.
+  destruct (Z.ltb_spec (L + 1) (2 ^ (L + 1) - ni)) as [Hlt|Hge].
+  - replace (sub_ok (L + 1) 1) with true by (unfold sub_ok; lia).
+    assert (E3 : wsub 32 (L + 1) 1 = L) by (rewrite wsub32_small by (lits; lia); lia).
+    rewrite E3. rewrite shift_ok_64, wshl64_1 by lia.
+    replace (sub_ok ni (2 ^ L)) with true by (unfold sub_ok; lia).
+    rewrite wsub64_small by lia.
+    replace (add_ok 64 (ni - 2 ^ L) 1) with true by (unfold add_ok; lits; lia).
+    rewrite wadd64_small by (lits; lia).
+    replace (L + 1 - 1) with L by lia.
+    apply IH. lits. lia.
+  - replace (sub_ok (2 ^ (L + 1) - ni) 1) with true by (unfold sub_ok; lia).
+    assert (E4 : ucast 32 (wsub 64 (2 ^ (L + 1) - ni) 1) = 2 ^ (L + 1) - ni - 1).
+    { unfold ucast. rewrite wsub64_small by (lits; lia). apply wrap_small. lits. lia. }
+    rewrite E4. split; [reflexivity|]. intros r Hr. inversion Hr; subst. lia.
+Qed.
+
+Theorem tie_rll_node x : 0 <= x < 2 ^ 64 -> rll_node x = mm_right_lineage_length_from_node_index x.
+Proof. intros Hx. unfold rll_node, mm_right_lineage_length_from_node_index. exact (proj1 (rll_node_tie 65 x Hx)). Qed.
+
+(* ---------------------------------------------------------------- node_indices_added_by_append *)
+Lemma added_loop_tie : forall (m : nat) x (F : nat), 0 <= x -> (m < F)%nat -> (m <= 100)%nat ->
+  MmrIdxLocal.added_loop m x =
+  match MmrIndex.added_loop F x (Z.of_nat m) with Some l => Some l | None => None end.
+Proof.
+  induction m as [|m IH]; intros x F Hx HF Hm; destruct F as [|F]; try lia.
+  - reflexivity.
+  - cbn [MmrIdxLocal.added_loop MmrIndex.added_loop].
+    destruct (Z.eqb_spec (Z.of_nat (S m)) 0); [lia|].
+    unfold add64, add_ok, two64. lits.
+    destruct (Z.ltb_spec (x + 1) 18446744073709551616); cbn [obind]; [|reflexivity].
+    replace (sub_ok (Z.of_nat (S m)) 1) with true by (unfold sub_ok; symmetry; apply Z.leb_le; lia).
+    rewrite wadd64_small by (lits; lia).
+    replace (wsub 32 (Z.of_nat (S m)) 1) with (Z.of_nat m) by (rewrite wsub32_small by (lits; lia); lia).
+    rewrite (IH (x + 1) F) by lia.
+    destruct (MmrIndex.added_loop F (x + 1) (Z.of_nat m)); reflexivity.
+Qed.
+
+Lemma rll_node_eq x : rll_node x = rll_node_fuel 65 x.
+Proof. unfold rll_node. reflexivity. Qed.
+
+Lemma rll_node_bounds x r : 0 <= x < 2 ^ 64 -> rll_node x = Some r -> 0 <= r <= 63.
+Proof. intros Hx E. rewrite rll_node_eq in E. exact (proj2 (rll_node_tie 65 x Hx) r E). Qed.
+
+Lemma l2n_range n ni : 0 <= n -> l2n n = Some ni -> 0 <= ni < 2 ^ 64.
+Proof.
+  intros Hn El. unfold l2n, two63 in El. destruct (Z.ltb_spec n 9223372036854775808); [|discriminate El].
+  apply (f_equal (fun o => match o with Some z => z | None => 0 end)) in El. cbv beta iota in El. subst ni.
+  pose proof (co_le n ltac:(lia)). pose proof (co_nonneg n). lits. lia.
+Qed.
+
+Lemma added_loop_tie65 rc x : 0 <= x -> 0 <= rc <= 63 ->
+  MmrIdxLocal.added_loop (Z.to_nat rc) x = match MmrIndex.added_loop 65 x rc with Some l => Some l | None => None end.
+Proof.
+  intros Hx Hr. pose proof (added_loop_tie (Z.to_nat rc) x 65 Hx) as Ht. rewrite Z2Nat.id in Ht by lia. apply Ht; lia.
+Qed.
+
+Theorem tie_node_indices_added_by_append n : 0 <= n < 2 ^ 64 ->
+  node_indices_added_by_append n = mm_node_indices_added_by_append n.
+Proof.
+  intros Hn. unfold node_indices_added_by_append, mm_node_indices_added_by_append.
+  rewrite <- (tie_l2n n Hn).
+  destruct (l2n n) as [ni|] eqn:El; [|reflexivity]. cbn [obind].
+  pose proof (l2n_range n ni ltac:(lia) El) as Hni.
+  rewrite <- (tie_rll_node ni Hni).
+  destruct (rll_node ni) as [rc|] eqn:Er; [|reflexivity]. cbn [obind].
+  rewrite (added_loop_tie65 rc ni ltac:(lia) (rll_node_bounds ni rc Hni Er)).
+  destruct (MmrIndex.added_loop 65 ni rc); reflexivity.
+Qed.
+
+(* ---------------------------------------------------------------- get_authentication_path_node_indices *)
+(* one step towards the parent as the loops of MmrIndex.v write it inline *)
+Definition mm_up (ni : Z) : option (Z * Z) :=
+  match mm_right_lineage_length_and_own_height ni with
+  | None => None
+  | Some (rac, height) =>
+      if negb (rac =? 0) then
+        if MmrIndexGen.left_sibling_ok ni height then
+        if add_ok 64 ni 1 then Some (MmrIndexGen.left_sibling ni height, wadd 64 ni 1) else None else None
+      else
+        if MmrIndexGen.right_sibling_ok ni height then
+        if add_ok 32 height 1 then
+        if shift_ok 64 (wadd 32 height 1) then
+        if add_ok 64 ni (wshl 64 1 (wadd 32 height 1))
+        then Some (MmrIndexGen.right_sibling ni height, wadd 64 ni (wshl 64 1 (wadd 32 height 1)))
+        else None else None else None else None
+  end.
+
+Lemma mm_auth_path_loop_eq fuel ni peak nc :
+  MmrIndex.auth_path_loop fuel ni peak nc =
+  match fuel with
+  | O => None
+  | S f =>
+      if (ni <=? nc) && negb (ni =? peak) then
+        match mm_up ni with
+        | None => None
+        | Some (s, p) =>
+            match MmrIndex.auth_path_loop f p peak nc with
+            | None => None
+            | Some None => Some None
+            | Some (Some l) => Some (Some (s :: l))
+            end
+        end
+      else if ni =? peak then Some (Some []) else Some None
+  end.
+Proof.
+  destruct fuel as [|f]; [reflexivity|]. cbn [MmrIndex.auth_path_loop]. unfold mm_up.
+  destruct ((ni <=? nc) && negb (ni =? peak)); [|reflexivity].
+  destruct (mm_right_lineage_length_and_own_height ni) as [[rac h]|]; [|reflexivity].
+  destruct (negb (rac =? 0)).
+  - destruct (left_sibling_ok ni h); [|reflexivity]. destruct (add_ok 64 ni 1); reflexivity.
+  - destruct (right_sibling_ok ni h); [|reflexivity]. destruct (add_ok 32 h 1); [|reflexivity].
+    destruct (shift_ok 64 (wadd 32 h 1)); [|reflexivity]. destruct (add_ok 64 ni (wshl 64 1 (wadd 32 h 1))); reflexivity.
+Qed.
+
+Lemma up_info_tie ni : 0 <= ni < 2 ^ 64 ->
+  mm_up ni = match up_info ni with Some (_, s, p) => Some (s, p) | None => None end /\
+  (forall b s p, up_info ni = Some (b, s, p) -> 0 <= p < 2 ^ 64).
+Proof.
+  intros Hni. unfold mm_up, up_info. rewrite <- (tie_rll_and_height ni Hni).
+  pose proof (rll_and_height_bounds ni) as Hb.
+  destruct (rll_and_height ni) as [[rac h]|]; [|split; [reflexivity|discriminate]].
+  destruct (Hb rac h Hni eq_refl) as [Hr Hh]. cbn [obind].
+  destruct (negb (rac =? 0)).
+  - rewrite (tie_left_sibling ni h Hni ltac:(lits; lia)). unfold mm_left_sibling, mm_chk.
+    destruct (left_sibling_ok ni h); cbn [obind]; [|split; [reflexivity|discriminate]].
+    unfold add64, add_ok, two64. lits.
+    destruct (Z.ltb_spec (ni + 1) 18446744073709551616); cbn [obind]; [|split; [reflexivity|discriminate]].
+    rewrite wadd64_small by (lits; lia). split; [reflexivity|]. intros b s p E. inversion E; subst. lia.
+  - rewrite (tie_right_sibling ni h Hni ltac:(lits; lia)). unfold mm_right_sibling, mm_chk.
+    destruct (right_sibling_ok ni h); cbn [obind]; [|split; [reflexivity|discriminate]].
+    replace (add_ok 32 h 1) with true by (unfold add_ok; lits; symmetry; apply Z.ltb_lt; lia).
+    rewrite wadd32_small by (lits; lia). unfold shl1, shift_ok.
+    destruct (Z.leb_spec 0 (h + 1)); [|lia]. destruct (Z.ltb_spec (h + 1) 64); cbn [andb obind]; [|split; [reflexivity|discriminate]].
+    rewrite wshl64_1 by lia. pose proof (pow2_pos (h + 1) ltac:(lia)).
+    unfold add64, add_ok, two64. lits.
+    destruct (Z.ltb_spec (ni + 2 ^ (h + 1)) 18446744073709551616); cbn [obind]; [|split; [reflexivity|discriminate]].
+    rewrite wadd64_small by (lits; lia). split; [reflexivity|]. intros b s p E. inversion E; subst. lia.
+Qed.
+
+(* the two loops in lock step: the C16 loop tests its fuel before the loop condition, the local one after *)
+Lemma auth_path_lockstep peak nc : forall (f : nat) ni, 0 <= ni < 2 ^ 64 ->
+  MmrIndex.auth_path_loop (S f) ni peak nc = MmrIdxLocal.auth_path_loop f ni peak nc.
+Proof.
+  induction f as [|f IH]; intros ni Hni; rewrite mm_auth_path_loop_eq, auth_path_loop_eq.
+  - destruct ((ni <=? nc) && negb (ni =? peak)); [|destruct (ni =? peak); reflexivity].
+    destruct (mm_up ni) as [[s p]|]; reflexivity.
+  - destruct ((ni <=? nc) && negb (ni =? peak)); [|destruct (ni =? peak); reflexivity].
+    destruct (up_info_tie ni Hni) as [E Hp]. rewrite E.
+    destruct (up_info ni) as [[[b s] p]|]; [|reflexivity]. cbn [obind].
+    rewrite (IH p (Hp b s p eq_refl)).
+    destruct (MmrIdxLocal.auth_path_loop f p peak nc) as [[l|]|]; reflexivity.
+Qed.
+
+(* more fuel than the remaining height changes nothing *)
+Lemma root_up_info : up_info (bidx 0 (Z.of_nat 63)) = None.
+Proof.
+  destruct (rll_and_height_bidx 63 0 ltac:(lia)) as (rac & Hr & _ & Hz).
+  { rewrite bidx_formula by lia. cbn. lia. }
+  unfold up_info. rewrite Hr. cbn [obind]. cbn [Z.even] in Hz. rewrite Hz. cbn [negb].
+  unfold MmrIdxLocal.right_sibling, shl1. reflexivity.
+Qed.
+
+Lemma auth_path_stable peak nc : forall (m h : nat) a f f', (h + m = 63)%nat -> 0 <= a < 2 ^ Z.of_nat m ->
+  (m + 1 < f)%nat -> (m + 1 < f')%nat ->
+  MmrIdxLocal.auth_path_loop f (bidx a (Z.of_nat h)) peak nc = MmrIdxLocal.auth_path_loop f' (bidx a (Z.of_nat h)) peak nc.
+Proof.
+  induction m as [|m IH]; intros h a f f' Hh Ha Hf Hf'; rewrite !(auth_path_loop_eq _ (bidx a (Z.of_nat h))).
+  - destruct ((bidx a (Z.of_nat h) <=? nc) && negb (bidx a (Z.of_nat h) =? peak)); [|reflexivity].
+    destruct f as [|f]; [lia|]. destruct f' as [|f']; [lia|].
+    change (2 ^ Z.of_nat 0) with 1 in Ha. assert (a = 0) by lia. subst a. replace h with 63%nat by lia.
+    rewrite root_up_info. reflexivity.
+  - destruct ((bidx a (Z.of_nat h) <=? nc) && negb (bidx a (Z.of_nat h) =? peak)); [|reflexivity].
+    destruct f as [|f]; [lia|]. destruct f' as [|f']; [lia|].
+    assert (Hin : inb a h).
+    { split; [lia|]. rewrite p2_S in Ha. pose proof (p2_nat_pos m) as Hp. pose proof (p2_nat_pos h) as Hph.
+      assert (E : 2 ^ 63 = 2 ^ Z.of_nat m * (2 * 2 ^ Z.of_nat h)).
+      { rewrite <- p2_S. rewrite <- p2_split. f_equal. lia. }
+      rewrite E. nia. }
+    rewrite (up_info_bidx h a Hin). cbn [obind].
+    rewrite (IH (S h) (a / 2) f f') by (try lia; rewrite p2_S in Ha; lia). reflexivity.
+Qed.
+
+Theorem tie_auth_path start peak nc : 0 <= start < 2 ^ 64 ->
+  get_authentication_path_node_indices start peak nc = mm_get_authentication_path_node_indices start peak nc.
+Proof.
+  intros Hs. unfold get_authentication_path_node_indices, mm_get_authentication_path_node_indices.
+  rewrite (auth_path_lockstep peak nc 65 start Hs).
+  destruct (Z.eq_dec start 0) as [->|Hne].
+  - rewrite !(auth_path_loop_eq _ 0). destruct ((0 <=? nc) && negb (0 =? peak)); reflexivity.
+  - assert (Eb : bidx 0 (Z.of_nat 63) = 2 ^ 64 - 1) by (rewrite bidx_formula by lia; reflexivity).
+    destruct (tree_nodes 63 0 start ltac:(lia)) as (a & h & Hh & Ex & Ha & Ea).
+    { rewrite Eb. unfold nn. cbn. lia. }
+    rewrite Ex. apply (auth_path_stable peak nc (63 - h) h a); try lia.
+    split; [exact Ha|]. pose proof (p2_nat_pos (63 - h)).
+    destruct (Z.lt_ge_cases a (2 ^ Z.of_nat (63 - h))) as [|Hge]; [assumption|exfalso].
+    assert (1 <= a / 2 ^ Z.of_nat (63 - h)) by (apply Z.div_le_lower_bound; lia). lia.
+Qed.
